@@ -104,6 +104,7 @@ class BodyStream(Scenario):
             "readinto": rng.random() < 0.6,
             "fail_at": fail_at,
             "max_read": rng.choice([0, 0, 0, 1, 3, 10]),
+            "error": rng.choice(["oserror", "oserror", "timeout", "reset", "broken_pipe"]),
             "tape": gen_tape(rng, 40 if not big else 200),
             "ops": ops,
         }
@@ -122,6 +123,7 @@ class BodyStream(Scenario):
             Tape(case.get("tape")),
             fail_at=[int(x) for x in case.get("fail_at", [])],
             max_read=int(case.get("max_read", 0) or 0),
+            error=case.get("error", "oserror") if case.get("error") in ("oserror", "timeout", "reset", "broken_pipe") else "oserror",
         )
 
     def execute(self, case: dict) -> Outcome:
@@ -239,6 +241,11 @@ def drive(pid, sname, case, sim, ls, limit, is_max, out: Outcome, tr: Trace) -> 
             elif kind == "exhaust" and wrap == "raw":
                 got = ls.exhaust()
                 eof = True
+            elif kind == "get_data" and wrap == "raw" and getattr(ls, "_verif_request", None) is not None:
+                req = ls._verif_request
+                got = req.get_data(cache=bool(arg % 2)) if arg % 4 < 2 else req.data
+                eof = True
+                kind = "read_all"  # judged like any other unbounded read
             else:
                 continue
         except (ClientDisconnected, RequestEntityTooLarge) as e:
@@ -483,13 +490,17 @@ class RequestStream(InputStream):
     real = "werkzeug.wrappers.Request.stream / get_data -> get_input_stream -> LimitedStream"
     stubs = "the WSGI environ, wsgi.input (SimStream), the application's read pattern"
 
-    def generate(self, rng: random.Random, tier: str) -> dict:
-        case = super().generate(rng, tier)
-        case["safe_fallback"] = True  # Request always uses the safe fallback
-        return case
-
     def build(self, case: dict, sim):
         return super().build(dict(case, safe_fallback=True), sim)
+
+    def generate(self, rng: random.Random, tier: str) -> dict:
+        case = super().generate(rng, tier)
+        case["safe_fallback"] = True
+        if rng.random() < 0.3:
+            # the whole body through Request.get_data(): one unbounded read as far as the application is concerned
+            case["ops"] = [["get_data", rng.randrange(4)]]
+            case["wrap"] = "raw"
+        return case
 
     def open_stream(self, environ, safe, mcl):
         from werkzeug.wrappers import Request
@@ -500,7 +511,13 @@ class RequestStream(InputStream):
         environ.setdefault("SERVER_NAME", "localhost")
         environ.setdefault("SERVER_PORT", "80")
         environ.setdefault("wsgi.url_scheme", "http")
-        return Req(environ).stream
+        req = Req(environ)
+        stream = req.stream
+        try:
+            stream._verif_request = req  # lets the read history call req.get_data()
+        except AttributeError:
+            pass
+        return stream
 
 
 SCENARIOS = [BodyStream(), InputStream(), RequestStream()]
